@@ -17,7 +17,8 @@ A layout is a dict (all keys optional):
     dummy:     int  (length of a kDummy record in FilesInfo, 0 = none)
     emptyfile: "auto" | "omit" | "always"
     omit_nums: bool (omit NumUnpackStream when all are 1)
-    no_substreams: bool (omit SubStreamsInfo entirely; needs one member per folder)
+    no_substreams: bool (omit SubStreamsInfo entirely; needs one member per folder; the CRCs are then the folders':
+               all of them, or with crc "none" / "folder-partial" none / every other one)
     header:    "raw" | "lzma"
     zero_folder_after: int|None  (insert a folder with zero sub-streams after folder k)
     attr_defined / mtime_defined: "all" | "partial"   (partial: honour None entries; all: require values)
@@ -187,7 +188,7 @@ def write_archive(members, layout=None):
         h += b"\x0c" + b"".join(number(s) for f in folders for s in f[1])
         no_sub = layout.get("no_substreams", False)
         folder_crc_vals = None
-        if crc_mode == "folder" or no_sub:
+        if crc_mode == "folder" or (no_sub and crc_mode not in ("none", "folder-partial")):
             folder_crc_vals = [f[3] if f[2] else None for f in folders]
         elif crc_mode == "folder-partial":
             folder_crc_vals = [f[3] if (i % 2 == 0 and f[2]) else None for i, f in enumerate(folders)]
